@@ -2429,7 +2429,7 @@ func platformModel(ti *mTCBInfo, qi *mQEIdentity, tdx bool, fmspc []byte, sgxSvn
 const bindingRule = "case = TCBBundle.Verify (the step that binds collateral to the platform) called with the genuine collateral, time and policy of a vector and the platform data of its quote (FMSPC, 16 SGX component SVNs and PCESVN from the PCK certificate, TEE TCB SVNs of the TD report, QE report) " +
 	"with 1-3 drawn changes: FMSPC bit flip / other platform's FMSPC / wrong length / empty, TEE type swapped, an SGX or TDX component SVN or the PCESVN set to a level threshold -1/0/+1, 0 or 255, TDX module version/SVN, QE report MRSIGNER / ISVPRODID / MISCSELECT / ATTRIBUTES bit or ISVSVN 0..8, other QE report bytes; " +
 	"oracle = independent model of Intel's TCB evaluation written from the PCS documentation (FMSPC equality, first matching TCB level must be UpToDate or SWHardeningNeeded, TDX module level UpToDate, QE identity fields under masks, QE level UpToDate): model forbids => must be rejected; " +
-	"model allows => must be accepted; non-trivial = at least one input differs from the genuine call and the genuine call itself is accepted (checked per case); distinct = (vector, all inputs)"
+	"model allows => must be accepted; non-trivial = at least one input differs from the genuine call and the genuine call itself is accepted (checked at start-up); distinct = (vector, all inputs)"
 
 func TestC18BundleBinding(t *testing.T) {
 	rec := ev.New("C18", "TestC18BundleBinding", bindingRule,
@@ -2480,6 +2480,21 @@ func TestC18BundleBinding(t *testing.T) {
 			b.tdx = &s
 		}
 		b.qeRep = cp(v.quote[v.lay.qeRep.a:v.lay.qeRep.b])
+		var genuineQE pcs.SgxReport
+		if err := genuineQE.UnmarshalBinary(b.qeRep); err != nil {
+			ev.Infra(t, "QE report: %v", err)
+		}
+		genuineTee := pcs.TeeTypeSGX
+		if v.tdx {
+			genuineTee = pcs.TeeTypeTDX
+		}
+		gpol := v.policy
+		if err := v.bundle.Verify(genuineTee, v.ts, &gpol, b.fmspc, b.sgx, b.tdx, b.pcesvn, &genuineQE); err != nil {
+			ev.Infra(t, "genuine TCBBundle.Verify call is rejected: %v", err)
+		}
+		if why := platformModel(&b.ti, &b.qi, v.tdx, b.fmspc, b.sgx, b.tdx, b.pcesvn, b.qeRep); len(why) > 0 {
+			ev.Infra(t, "the independent model rejects the genuine platform data: %v", why)
+		}
 		bases = append(bases, b)
 	}
 	otherFMSPC := [][]byte{{0x00, 0x60, 0x6A, 0x00, 0x00, 0x00}, {0xC0, 0x80, 0x6F, 0x00, 0x00, 0x00}, {0x50, 0x80, 0x6F, 0x00, 0x00, 0x00}, {0x00, 0x90, 0x6E, 0xD5, 0x00, 0x00}}
@@ -2589,17 +2604,6 @@ func TestC18BundleBinding(t *testing.T) {
 			return
 		}
 		pol := v.policy
-		var genuineQE pcs.SgxReport
-		if err := genuineQE.UnmarshalBinary(b.qeRep); err != nil {
-			ev.Infra(t, "QE report: %v", err)
-		}
-		genuineTee := pcs.TeeTypeSGX
-		if v.tdx {
-			genuineTee = pcs.TeeTypeTDX
-		}
-		if err := v.bundle.Verify(genuineTee, v.ts, &pol, b.fmspc, b.sgx, b.tdx, b.pcesvn, &genuineQE); err != nil {
-			ev.Infra(t, "genuine TCBBundle.Verify call is rejected: %v", err)
-		}
 		var qe pcs.SgxReport
 		if err := qe.UnmarshalBinary(qeRep); err != nil {
 			ev.Infra(t, "QE report: %v", err)
